@@ -65,8 +65,8 @@ CHECKS = {
     "C18": dict(pkg="benchseries", tech="exhaustive enumeration of all insertion orders (permutations) of result pools and of all add/ask histories up to a depth on the real Builder, canonical-dump comparison; deviation-bounded exhaustive exploration of map iteration orders on the mechanically instrumented real code; lattice enumeration for bootstrap and dates", sec="3/C18",
                 text="Every permutation of each result pool, every add/ask history up to the bound and every map iteration order up to the deviation bound is executed on the real Builder; the canonical dump of the comparison series (with bootstrap summaries) must be identical and equal to the set-semantics reference.",
                 note="Trusts the set-semantics reference."),
-    "C19": dict(pkg="storage/app", tech="explicit-state enumeration of upload histories × exhaustive query conjunctions (all conjunctions up to 5 terms on one key) against a reference store; exhaustive word-splitting strings", sec="3/C19",
-                text="Every upload history up to the bound × every conjunction of query terms up to the bound is executed on the real DB/server and compared with a reference store.",
+    "C19": dict(pkg="storage/app", tech="explicit-state enumeration of upload histories × exhaustive query conjunctions (all conjunctions up to 5 terms on one key) against a reference store; exhaustive word-splitting and query-word strings, the word parser additionally under every map iteration order on the mechanically instrumented storage/db and storage/query (explorer-chosen orders, unbounded depth-first)", sec="3/C19",
+                text="Every upload history up to the bound × every conjunction of query terms up to the bound is executed on the real DB/server and compared with a reference store; every query word up to the bound is parsed by the real parser and compared with the leftmost-operator rule, in a second build under every order in which the maps it consults may be iterated.",
                 note="sqlite only; MySQL paths not exercised."),
     "C20": dict(pkg="storage/app", tech="exhaustive single-fault enumeration over every fault position of the upload path + exhaustive SQL-statement interleavings of concurrent uploads under a controlled scheduler + explicit-state ID histories", sec="3/C20",
                 text="Every position of every single fault class is injected into the real upload handler and the differential post-state is checked; all statement interleavings of concurrent upload creation are explored.",
